@@ -415,7 +415,7 @@ def split_rule(repo, rep):
     seen = set()
     okw = len(parts) == 2
     for p_ in parts:
-        t = unparse(p_).replace(" ", "")
+        t = unparse(p_).replace(" ", "").replace("self._obj.freq", "self.freq")       # SpecArray.freq IS self._obj.freq
         if f"isel(freq=[{i}])" in t and (f"({fint}-self.freq[{i}-1])" in t):
             seen.add("upper")
         elif f"isel(freq=[{i}-1])" in t and (f"(self.freq[{i}]-{fint})" in t):
